@@ -378,6 +378,45 @@ def handleIdpf (args : List String) : String :=
       | _, _, _, _, _, _ => "bad-op"
   | _ => "bad-op"
 
+/-- the IDPF over plain field elements (inner Field64, leaf Field128), ring-buffer cache -/
+def handleIdpf1 (args : List String) : String :=
+  match args with
+  | [alpha, k0, k1, inner, leaf, cacheKind, evals, table] =>
+    withField "FP64" fun qi szi => withField "FP128" fun ql szl =>
+      match parseBits alpha, parseHex k0, parseHex k1, hexVec qi szi inner, hexVec ql szl leaf, parseTable table with
+      | some al, some k0, some k1, some iv, some [lv], some tbl =>
+        let gI := Idpf.tablePrg1 tbl false qi szi
+        let gL := Idpf.tablePrg1 tbl true ql szl
+        let evs : Option (List (Nat × List Bool)) :=
+          if evals == "none" then some [] else
+          (evals.splitOn ";").mapM fun (e : String) =>
+            match e.splitOn ":" with
+            | [id, p] => do pure (← id.toNat?, ← parseBits p)
+            | _ => none
+        let cap := match cacheKind.splitOn ":" with
+          | ["ring", c] => c.toNat?.getD 0
+          | _ => 0
+        match Idpf.gen gI gL al iv lv k0 k1, evs with
+        | some ps, some evs =>
+          let rec go (c0 c1 : List (List Bool × Idpf.Node (List Nat))) (es : List (Nat × List Bool)) (acc : List String) : List String :=
+            match es with
+            | [] => acc.reverse
+            | (id, pfx) :: rest =>
+              let key := if id == 0 then k0 else k1
+              let c := if id == 0 then c0 else c1
+              let (r, c') := Idpf.eval (Idpf.ringBufferCache cap) gI gL id ps key pfx c
+              let out := match r with
+                | .ok (.inner v) => "I:" ++ toHex (leBytesC v.val szi)
+                | .ok (.leaf v) => "L:" ++ toHex (leBytesC v.val szl)
+                | .error => "err"
+                | .panic => "panic"
+              if id == 0 then go c' c1 rest (out :: acc) else if id == 1 then go c0 c' rest (out :: acc) else go c0 c1 rest (out :: acc)
+          " ".intercalate (toHex (Idpf.encodePublicShare1 szi szl ps) :: go [] [] evs [])
+        | none, _ => "gen-err"
+        | _, none => "bad-op"
+      | _, _, _, _, _, _ => "bad-op"
+  | _ => "bad-op"
+
 /-- `F::root(l)` and `F::half()` of a named NTT field at the executable instance -/
 def rootOf (name : String) (q : Nat) (l : Nat) : Option (Fin (q + 1)) :=
   match findParams name with
@@ -410,6 +449,17 @@ def handlePoly (op : String) (args : List String) : String :=
       match outLen.toNat?, size.toNat?, vec inp with
       | some ol, some n, some i => showR sz (Ntt.nttInternal root ol (Array.replicate ol 0) i n (setS == "1"))
       | _, _, _ => "bad-op"
+    | "nttclass", [setS, outLen, size] =>
+      -- outcome class from the argument check alone (Props.C10.nttInternal_err_iff)
+      match outLen.toNat?, size.toNat? with
+      | some ol, some n =>
+        if n = 0 then "panic"
+        else match Ntt.nttSizeCheck ol n (setS == "1") with
+          | none => "ok"
+          | some .outputTooSmall => "err OutputTooSmall"
+          | some .sizeTooLarge => "err SizeTooLarge"
+          | some .sizeInvalid => "err SizeInvalid"
+      | _, _ => "bad-op"
     | "nttinv", [outLen, size, inp] =>
       match outLen.toNat?, size.toNat?, vec inp with
       | some ol, some n, some i =>
@@ -1026,6 +1076,7 @@ def handle (line : String) : String :=
   | "flp" :: op :: rest => handleFlp op rest
   | "poly" :: op :: rest => handlePoly op rest
   | "idpf" :: rest => handleIdpf rest
+  | "idpf1" :: rest => handleIdpf1 rest
   | "pp" :: r :: sl :: sh :: toks =>
     match r.toNat?, sl.toNat?, sh.toNat? with
     | some r, some a, some b => Trace.runScript (Trace.agg r a b) toks
